@@ -24,4 +24,8 @@ def main():
 
 
 if __name__ == "__main__":
-    main()
+    try:
+        main()
+    finally:
+        from mc import common
+        common.cleanup_scratch()
